@@ -335,6 +335,12 @@ func TestC15(t *testing.T) {
 		genFullMeta(rt, c)
 		c.Meta.Platform = "linux"
 		var labels []string
+		if rapid.IntRange(0, 5).Draw(rt, "foreign-platform") == 0 {
+			// a non-linux platform is only meaningful for deb and rpm (apk and archlinux refuse it; ipk has no notion of it)
+			c.Meta.Platform = rapid.SampledFrom([]string{"darwin", "freebsd"}).Draw(rt, "platform")
+			c.Formats = []string{"deb", "rpm", "ipk"}
+			labels = append(labels, "platform:"+c.Meta.Platform)
+		}
 		if c.Meta.Prerelease != "" {
 			labels = append(labels, "prerelease")
 		}
@@ -348,7 +354,7 @@ func TestC15(t *testing.T) {
 		st.Report(rt, map[string]any{"lib": c}, checkC15Lib(c))
 		i++
 		if i%10 == 0 {
-			cc := &CLICase{Case: c, Packager: rapid.SampledFrom(AllFormats).Draw(rt, "cli.format"), PassP: true,
+			cc := &CLICase{Case: c, Packager: rapid.SampledFrom(c.formats()).Draw(rt, "cli.format"), PassP: true,
 				Target: rapid.SampledFrom([]string{"file-matching", "dir", "empty", "file-foreign"}).Draw(rt, "cli.target")}
 			st.Record(map[string]any{"cli-random": cc.Packager + "/" + cc.Target, "name": c.Meta.Name, "version": c.Meta.Version}, true, "cli-random")
 			st.Report(rt, map[string]any{"cli": cc}, checkC15CLI(cc))
